@@ -5,7 +5,7 @@
     replaced by [f] (kinds, role, stoich untouched); [geq] = same graph up to the insertion order of nodes / arcs;
     [iso g h] = some map injective on the nodes of g relabels g into h up to [geq]. *)
 From Coq Require Import List NArith ZArith Bool Arith Permutation.
-From SK Require Import lib.IRSortKeys lib.IRCore lib.IRSearch model.C18_Model proof.C18_Order proof.C18_Spec
+From SK Require Import lib.IRSortKeys lib.IRCore lib.IRSearch model.C18_Model model.C18_AttrModel proof.C18_Attr proof.C18_Order proof.C18_Spec
   proof.C18_Graph proof.C18_Canon proof.C18_Equiv proof.C18_Label proof.C18_Aut proof.C18_Invariant proof.C18_Wf proof.C18_Count proof.C18_View proof.C18_Vf2 proof.C18_Vf2Count proof.C18_Refine proof.C18_NetBip proof.C18_Net proof.C18_NetSp proof.C18_Orbits proof.C18_OrbSound proof.C18_OrbComplete proof.C18_OrbCanon proof.C18_Maps proof.C18_Examples.
 From SK Require Import lib.C18_IRValid.
 From SK Require lib.IRInst.
@@ -256,3 +256,29 @@ Theorem C18_has_nontrivial : forall (g : vgraph) (lab p : list N),
   (1 < length (min_leaves g) <-> exists s v, is_aut g s /\ In v (node_ids g) /\ s v <> v).
 Proof. exact has_nontrivial_spec. Qed.
 Print Assumptions C18_has_nontrivial.
+
+(** Non-default attribute selections (model/C18_AttrModel.v, bipartite view: node_attr_keys from kind / bipartite / label /
+    absent keys, edge_attr_keys from role / stoich / absent keys, any order and multiplicity; evaluated against the code on
+    the `attrs` cases).  With the default selection the generalised canonicaliser is the base model, so every theorem above
+    is a theorem about it. *)
+Theorem C18_attr_default : forall (g : vgraph) (t : ltab),
+  NoDup (node_ids g) -> canon_searchA g t [NKind] [ERole; EStoich] = canon_search g.
+Proof. exact canon_searchA_default. Qed.
+Print Assumptions C18_attr_default.
+
+(** For EVERY selection (with at least one node key, or a non-empty view: the code itself fails on the empty view with
+    node_attr_keys=()), the search finds a leaf, the reported label is the label of the reported permutation and the
+    canonical graph is the view relabelled by a bijection onto k+1..k+n (clause 1 does not depend on the selection). *)
+Theorem C18_attr_canon_iso : forall (g : vgraph) (t : ltab) (nk : list nsel) (ek : list esel),
+  wf g -> (nk <> [] \/ node_ids g <> []) ->
+  fst (canon_searchA g t nk ek) <> None /\
+  forall lab perm, fst (canon_searchA g t nk ek) = Some (lab, perm) ->
+    lab = labelA g t nk ek perm /\
+    canon_graph g perm = relabel (cid perm) g /\ inj_on (cid perm) (node_ids g) /\
+    (exists k, Permutation (node_ids (canon_graph g perm)) (map N.of_nat (seq (S k) (length (vnodes g))))) /\
+    wf (canon_graph g perm) /\
+    (forall v, In v (node_ids g) -> kind_of (canon_graph g perm) (cid perm v) = kind_of g v) /\
+    (forall u v, In u (node_ids g) -> In v (node_ids g) ->
+       find_arc (canon_graph g perm) (cid perm u) (cid perm v) = find_arc g u v).
+Proof. exact canon_isoA. Qed.
+Print Assumptions C18_attr_canon_iso.
